@@ -328,6 +328,59 @@ def check_cursor_model(ctx, persist_recs):
     return ob
 
 
+def validate_translator(ctx):
+    """translator validation: the journal I/O events the REAL writer emits for each operation (trace hook at every journal write / flush / sync call) must be
+    the journal-event projection of one fault-free symbolic path of the same operation.  A mismatch means the encoder or the contract is wrong: the
+    obligation becomes undecided (it is neither a pass nor an alarm)."""
+    ob = ctx.ob('translator/journal-trace', 'the real journal I/O trace of insert / remove / remove_weak / clear / batch / persist(mode) equals the journal-event projection of a fault-free symbolic path', ['journal::writer'])
+    L = ['dir $DIR/db', 'open workers=0', 'ks a', 'trace_on']
+    ops = [('insert', 'insert a 6b31 31'), ('remove', 'remove a 6b31'), ('remove_weak', 'remove_weak a 6b32'), ('clear', 'clear a'), ('batch', 'batch2 a 6b33 33 a 6b34 34')]
+    for _o, cmd in ops:
+        L += [cmd, 'trace_take']
+    for md in ('buffer', 'syncdata', 'syncall'):
+        L += ['insert a 6b35 35', 'trace_take', f'persist {md}', 'trace_take']
+    L.append('close')
+    try:
+        spath, out = ctx.run_scenario('\n'.join(L) + '\n', tag='trace')
+    except Exception as e:      # noqa
+        ob.status = 'undecided'; ob.detail = f'trace scenario failed: {e!r}'; return
+    tk = [r for _i, c, r in out if c == 'trace_take']
+    native = {}
+    for (o, _cmd), t in zip(ops, tk):
+        native[o] = [x for x in t.strip('[]').split(',') if x]
+    pers = {}
+    for j, md in enumerate(('buffer', 'syncdata', 'syncall')):
+        pers[md] = [x for x in tk[len(ops) + 2 * j + 1].strip('[]').split(',') if x]
+    proj = {'J_APPEND': 'J_APPEND', 'J_FLUSH': 'J_FLUSH', 'F_SYNC_ALL': 'J_SYNC', 'F_SYNC_DATA': 'J_SYNC'}
+    bad = []
+    for o, _cmd in ops:
+        kw = dict(n_items=2, value_types=['Value']) if o == 'batch' else {}
+        ex, paths, recs = W.run_op(ctx, o, **kw)
+        cands = set()
+        for r in recs:
+            if not r.ok:
+                continue
+            seq = tuple(proj[e.kind] for e in r.p.events if e.kind in proj)
+            cands.add(seq)
+        ob.reach += 1
+        if tuple(native[o]) not in cands:
+            bad.append(f'{o}: real trace {native[o]} is not among the symbolic fault-free traces {sorted(cands)[:4]}')
+        else:
+            ctx.traces_validated += 1
+    # persist(mode) on a dirty buffer (manual persist is off, so the insert before flushed already: the buffer is clean)
+    want = {'buffer': [[], ['J_FLUSH']], 'syncdata': [['J_SYNC'], ['J_FLUSH', 'J_SYNC']], 'syncall': [['J_SYNC'], ['J_FLUSH', 'J_SYNC']]}
+    for md, t in pers.items():
+        ob.reach += 1
+        if t not in want[md]:
+            bad.append(f'persist({md}): real trace {t}, expected one of {want[md]}')
+        else:
+            ctx.traces_validated += 1
+    if bad:
+        ob.status = 'undecided'; ob.detail = 'encoder/contract disagrees with the real code: ' + '; '.join(bad)[:600]
+    else:
+        ob.status = 'discharged'; ob.sample = {'native': native, 'persist': pers}
+
+
 def native_power(ctx, extra=None):
     progs = [['w', 'w', 'p:syncdata', 'x', 'w', 'x', 'p:syncall', 'x', 'w', 'b', 'x'],
              ['w', 'p:buffer', 'x', 'w', 'p:syncall', 'x', 'b', 'p:syncdata', 'x'],
@@ -366,6 +419,7 @@ def run(ctx):
     check_rotate(ctx)
     check_db_persist(ctx)
     check_batch_durability(ctx)
+    validate_translator(ctx)
     check_auto_persist(ctx)
     check_cursor_model(ctx, recs)
     for o in ctx.obligations:
